@@ -222,7 +222,7 @@ func (w *World) isPowPositiveExit(f *ssa.Function, c *ssa.Call) bool {
 	for _, g := range guardsAt(c.Block()) {
 		if bo, ok := g.Cond.(*ssa.BinOp); ok && bo.Op == token.EQL && g.Val {
 			if call, ok := bo.X.(*ssa.Call); ok && w.calleeName(call) == "(*Decimal).Sign" {
-				if k, ok := bo.Y.(*ssa.Const); ok && k.Int64() == 0 {
+				if k, ok := bo.Y.(*ssa.Const); ok && ci(k) == 0 {
 					return true
 				}
 			}
@@ -250,7 +250,7 @@ func ruleZeroSumSign(w *World, r *RuleResult) {
 				continue
 			}
 			if call, ok := bo.X.(*ssa.Call); ok && w.calleeName(call) == "(*BigInt).Sign" {
-				if k, ok := bo.Y.(*ssa.Const); ok && k.Int64() == 0 {
+				if k, ok := bo.Y.(*ssa.Const); ok && ci(k) == 0 {
 					zeroGuard = true
 				}
 			}
